@@ -551,7 +551,12 @@ func (runInfo *runInfoStruct) runForMapStmt(stmt *ast.ForStmt, value reflect.Val
 		runInfo.env.DefineValue(stmt.Vars[0], keys[i])
 
 		if len(stmt.Vars) > 1 {
-			runInfo.env.DefineValue(stmt.Vars[1], value.MapIndex(keys[i]))
+			mapValue := value.MapIndex(keys[i])
+			if !mapValue.IsValid() {
+				// the entry was deleted by the loop body
+				mapValue = nilValue
+			}
+			runInfo.env.DefineValue(stmt.Vars[1], mapValue)
 		}
 
 		runInfo.stmt = stmt.Stmt
